@@ -451,6 +451,7 @@ func c05(c *Ctx) {
 	c05Addr(c)
 	c05Merge(c)
 	c05Snapshots(c)
+	c05PooledBuffers(c)
 }
 
 // reviewed dynamic origins: (enclosing function substring, origin description substring) -> reason
